@@ -353,6 +353,21 @@ def model_str_pred(s, name):
     return mkbool(z3.And(allc + [nonempty]))
 
 
+_INDEX_SEGS = {}
+
+
+def _stable_pruned(q, segs):
+    """pruned table value of character q, computed once per path: a later call (under a stronger path condition)
+    reuses the first term, so equal characters give syntactically equal values (and equal memoised prefix integers)"""
+    k = ("pruned", q.get_id(), id(segs))
+    hit = ctx.path_cache.get(k)
+    if hit is not None and hit[1].eq(q):
+        return hit[0]
+    e = prune_ite(seg_lookup(q, segs))
+    ctx.path_cache[k] = (e, q)
+    return e
+
+
 def model_index(hay, needle):
     """concrete_str.index(symbolic single char)"""
     n = SymStr.of(needle)._dense()
@@ -363,14 +378,16 @@ def model_index(hay, needle):
     q = n.p[0]
     if isinstance(q, int):
         return hay.index(chr(q))
-    table = {}
-    for i, c in enumerate(hay):
-        table.setdefault(ord(c), i)
-    segs = segments(table)
+    segs = _INDEX_SEGS.get(hay)
+    if segs is None:
+        table = {}
+        for i, c in enumerate(hay):
+            table.setdefault(ord(c), i)
+        segs = _INDEX_SEGS[hay] = segments(table)
     found = in_ranges(q, [[lo, hi] for lo, hi, d in segs])
     if not ctx.choose(found):
         raise ValueError("substring not found")
-    return mkint(prune_ite(seg_lookup(q, segs)))
+    return mkint(_stable_pruned(q, segs))
 
 
 def model_join(sep, it):
@@ -449,7 +466,7 @@ def model_int(x=0, *a, **k):
                 raise Unmodelled("int() of string with sign/space/underscore characters")
             raise ValueError("invalid literal for int() with base 10")
         # any decimal digit of Unicode: one merged value term (no fork between ASCII and other digits)
-        items.append((z3.simplify(prune_ite(seg_lookup(q, dt.segs))), z3.IntVal(1), 1, 1))
+        items.append((z3.simplify(_stable_pruned(q, dt.segs)), z3.IntVal(1), 1, 1))
     if not items:
         raise ValueError("invalid literal for int() with base 10: ''")
     # split at the maximal fixed-width suffix; memoise the (symbolic-width) prefix term
